@@ -93,5 +93,5 @@ Proof. exact ProofsRefuted.sparse_VDIVS_zero_refuted_float. Qed.
 Example pairs_covered :
   ProofsS.not_abs (PLogAdd 0 1 2 3) /\ ProofsV.vpair_ok true (VPopV Sub 0 0 1) /\ ProofsV.vpair_ok true (VPdivS 0 1 (-2))
   /\ ProofsV.vpair_ok false (VPequals 0 1 3) /\ ProofsB.not_abs_sqrt (BArithP ODiv)
-  /\ bare TInt8 /\ wt (CorrB.CarF []) TInt8 (VI (-128)) /\ wt (CorrB.CarF []) TFloat32 (VF 0x1.8p+1%float).
+  /\ bare TInt8 /\ (forall A (C : Car A), wt C TInt8 (VI (-128))) /\ (forall A (C : Car A) x, wt C TFloat64 (VF x)).
 Proof. cbn. repeat split; try discriminate; reflexivity. Qed.
